@@ -75,8 +75,8 @@ theorem wmOf_le64 {s : Store} {k : String} {v : Nat} (h : s.getMeta k = some (le
   have : (256 : Nat) ^ 8 = 2 ^ 64 := by decide
   rw [le64, unLe_le, this]
 
-theorem LoopInv.ple {d : Bool} {a0 : ANode} {items0 : List Item} {a : ANode} {rem : List Item} {ws : List SW}
-    {pre : List Item} (h : LoopInv d a0 items0 a rem ws pre) (hp : PLe d a0) : PLe d a := by
+theorem IterInv.ple {d : Bool} {a0 : ANode} {items0 : List Item} {a : ANode} {ws : List SW}
+    (h : IterInv d a0 items0 a ws) (hp : PLe d a0) : PLe d a := by
   rcases h.lastWrite with ⟨h1, h2⟩ | h1
   · have hs := h.store
     rw [h1] at hs
@@ -84,8 +84,8 @@ theorem LoopInv.ple {d : Bool} {a0 : ANode} {items0 : List Item} {a : ANode} {re
     exact ⟨w, by rw [hs]; exact hw, by rw [h2]; exact hle⟩
   · exact wmOf_le64 (h.getMeta_last h1)
 
-theorem LoopInv.ple_other {d : Bool} {a0 : ANode} {items0 : List Item} {a : ANode} {rem : List Item} {ws : List SW}
-    {pre : List Item} (h : LoopInv d a0 items0 a rem ws pre) (hp : PLe (!d) a0) : PLe (!d) a := by
+theorem IterInv.ple_other {d : Bool} {a0 : ANode} {items0 : List Item} {a : ANode} {ws : List SW}
+    (h : IterInv d a0 items0 a ws) (hp : PLe (!d) a0) : PLe (!d) a := by
   have hk : wmKey d ≠ wmKey (!d) := by cases d <;> decide
   obtain ⟨w, hw, hle⟩ := hp
   exact ⟨w, by rw [wmOf_congr_meta (h.getMeta_other _ hk)]; exact hw, by rw [h.frame.otherWm]; exact hle⟩
@@ -94,7 +94,7 @@ theorem LoopInv.ple_other {d : Bool} {a0 : ANode} {items0 : List Item} {a : ANod
 
 /-- `W` (watermarks in `[initialHeight − 1, height]`, acknowledged headers on the DA layer), the producer's liveness
 invariant, memory in sync with the durable image, persisted watermarks at most the ones in memory -/
-structure R (c : Cfg) (a : ANode) : Prop extends W c a where
+structure R (c : Cfg) (a : ANode) : Prop extends W c a, D c a where
   live : Live c a.n
   synced : Synced c a.n
   ph : PLe false a
@@ -119,7 +119,7 @@ theorem R_fresh (c : Cfg) (h1 : 1 ≤ c.initialHeight) : R c (freshA c) := by
     have : wmOf ({} : Store) Producer.dataWmKey = some 0 := rfl
     rw [this] at e2; simpa using e2.symm
   subst z1; subst z2
-  refine { W_fresh c h1 with live := hl, synced := hsy, ph := ?_, pd := ?_ }
+  refine { W_fresh c h1, D_fresh c h1 with live := hl, synced := hsy, ph := ?_, pd := ?_ }
   · show ∃ w, wmOf (freshNode c).store Producer.hdrWmKey = some w ∧ w ≤ (freshNode c).hdrWm
     by_cases hc : c.initialHeight > 1 ∧ c.initialHeight - 1 > 0
     · rw [if_pos hc] at e5
@@ -136,21 +136,22 @@ theorem R_fresh (c : Cfg) (h1 : 1 ≤ c.initialHeight) : R c (freshA c) := by
       exact ⟨0, by rw [wmOf_congr_meta e6]; rfl, Nat.zero_le _⟩
 
 /-- an action that leaves height, blocks, last state and saved state alone -/
-theorem R.of_frame {c : Cfg} {a a' : ANode} (r : R c a) (w : W c a') (hh : a'.n.store.height = a.n.store.height)
+theorem R.of_frame {c : Cfg} {a a' : ANode} (r : R c a) (w : W c a') (d : D c a') (hh : a'.n.store.height = a.n.store.height)
     (hb : ∀ k, a'.n.store.getBlock k = a.n.store.getBlock k) (hl : a'.n.lastState = a.n.lastState)
     (hs : a'.n.store.state = a.n.store.state) (ph : PLe false a') (pd : PLe true a') : R c a' :=
-  { w with
+  { w, d with
     live := Live.of_same r.live hh hb hl
     synced := by have := r.synced; unfold Synced at this ⊢; rw [hs, hl]; exact this
     ph := ph, pd := pd }
 
 theorem R.step {c : Cfg} {a : ANode} (r : R c a) (act : Act) : R c (stepA c a act) := by
   have w := r.toW.step act
+  have d := D.step r.toW r.toD act
   cases act with
   | produce rs e =>
     obtain ⟨w1, w2⟩ := publish_wm c a.n rs e
     obtain ⟨s1, _, _⟩ := publish_synced r.live r.synced r.wmOK rs e
-    refine { w with live := publish_live r.live rs e, synced := s1, ph := ?_, pd := ?_ }
+    refine { w, d with live := publish_live r.live rs e, synced := s1, ph := ?_, pd := ?_ }
     · obtain ⟨x, hx, hle⟩ := r.ph
       refine ⟨x, ?_, ?_⟩
       · show wmOf (publish c a.n rs e).1.store (wmKey false) = some x
@@ -164,17 +165,17 @@ theorem R.step {c : Cfg} {a : ANode} (r : R c a) (act : Act) : R c (stepA c a ac
       · show x ≤ (publish c a.n rs e).1.dataWm
         rw [w2]; exact hle
   | subH s =>
-    obtain ⟨items, rem, pre, hi, _⟩ := headersIter_inv a s
-    exact r.of_frame w hi.frame.height hi.frame.getBlock hi.frame.lastState hi.frame.state (hi.ple r.ph)
+    obtain ⟨items, hi, _⟩ := headersIter_iter a s
+    exact r.of_frame w d hi.frame.height hi.frame.getBlock hi.frame.lastState hi.frame.state (hi.ple r.ph)
       (hi.ple_other (d := false) r.pd)
   | subD s =>
-    obtain ⟨items, rem, pre, hi, _⟩ := dataIter_inv a s
-    exact r.of_frame w hi.frame.height hi.frame.getBlock hi.frame.lastState hi.frame.state
+    obtain ⟨items, hi, _⟩ := dataIter_iter a s
+    exact r.of_frame w d hi.frame.height hi.frame.getBlock hi.frame.lastState hi.frame.state
       (hi.ple_other (d := true) r.ph) (hi.ple r.pd)
   | incl =>
     have hi : PassInv a (includerIter a).1 (includerIter a).2 :=
       includerPass_inv (a.n.store.height + 1) a a [] (PassInv.init a)
-    refine r.of_frame w hi.frame.height hi.frame.getBlock hi.frame.lastState hi.frame.state ?_ ?_
+    refine r.of_frame w d hi.frame.height hi.frame.getBlock hi.frame.lastState hi.frame.state ?_ ?_
     · obtain ⟨x, hx, hle⟩ := r.ph
       refine ⟨x, ?_, ?_⟩
       · show wmOf (includerIter a).1.n.store (wmKey false) = some x
@@ -201,7 +202,7 @@ theorem R.restart {c : Cfg} {a : ANode} (r : R c a) (clean : Bool) :
   have hle1' : w1 ≤ a.n.hdrWm := hle1
   have hle2' : w2 ≤ a.n.dataWm := hle2
   obtain ⟨n, ws, hst, hl, hsy, _⟩ := start_of_dinv (dinv_of_node r.live r.synced r.wmOK)
-  obtain ⟨hw, dw, e1, e2, e3, e4, e5, e6, _, e8, e9, _⟩ := start_facts hst
+  obtain ⟨hw, dw, e1, e2, e3, e4, e5, e6, _, e8, e9, _, e11, e12⟩ := start_facts hst
   have z1 : hw = w1 := by
     have : wmOf a.n.store Producer.hdrWmKey = some w1 := hw1
     rw [this] at e1; simpa using e1.symm
@@ -216,6 +217,15 @@ theorem R.restart {c : Cfg} {a : ANode} (r : R c a) (clean : Bool) :
     · rw [hn] at h; cases h
     · have := r.live.hs; rw [h] at this; exact this
   have hlow := hl.low
+  -- the restarted node holds the state the node held, hence the same chain height
+  have hls : n.lastState = a.n.lastState := by
+    rcases r.synced with ⟨h, _⟩ | ⟨h, h'⟩
+    · exact e11 _ h
+    · rw [e12 h, h']
+  have hheq : n.store.height = a.n.store.height := by rw [hl.hs, hls, r.live.hs]
+  have hblk : ∀ k, c.initialHeight ≤ k → k ≤ a.n.store.height → n.store.getBlock k = a.n.store.getBlock k := by
+    intro k hk hk2
+    exact e8 k (fun hn => by have := hnone hn; have := r.pinv.ihPos; omega)
   have hmono : ∀ x y, x ≤ y → wmRaise c x ≤ wmRaise c y := by
     intro x y hxy; unfold wmRaise; split <;> split <;> omega
   have hpl : ∀ (key : String) (x : Nat), n.store.getMeta key = (if c.initialHeight > 1 ∧ c.initialHeight - 1 > x
@@ -233,8 +243,8 @@ theorem R.restart {c : Cfg} {a : ANode} (r : R c a) (clean : Bool) :
   obtain ⟨a', hr, hn, hda⟩ := hr
   subst hn
   refine ⟨a', hr, ?_, ?_, ?_, e9, hda⟩
-  · refine { pinv := hl.toInv, low := ?_, le := ?_, dlow := ?_, dle := ?_, acc := ?_, live := hl, synced := hsy,
-             ph := ?_, pd := ?_ }
+  · refine { pinv := hl.toInv, low := ?_, le := ?_, dlow := ?_, dle := ?_, acc := ?_, mh := ?_, dacc := ?_, live := hl,
+             synced := hsy, ph := ?_, pd := ?_ }
     · rw [e3]; exact (wmRaise_ge c _).2
     · rw [e3]
       have := r.le
@@ -256,6 +266,16 @@ theorem R.restart {c : Cfg} {a : ANode} (r : R c a) (clean : Bool) :
         have q3 := r.pinv.ihPos
         omega
       rw [e8 h hk]; exact r1
+    · intro h ha hb
+      have hb' : h ≤ a.n.store.height := by rw [← hheq]; exact hb
+      rw [hblk h ha hb']; exact r.mh h ha hb'
+    · intro h ha hb
+      have hb' : h ≤ a'.n.dataWm := hb
+      rw [e4] at hb'
+      have hold : h ≤ a.n.dataWm := by rcases wmRaise_cases c dw with q | ⟨q, _⟩ <;> omega
+      obtain ⟨b, r1, r2⟩ := r.dacc h ha hold
+      refine ⟨b, by rw [hblk h ha (Nat.le_trans hold r.dle)]; exact r1, ?_⟩
+      rw [hda]; exact r2
     · obtain ⟨w, q1, q2⟩ := hpl _ _ e5 hw1
       exact ⟨w, q1, by show w ≤ a'.n.hdrWm; rw [e3]; exact q2⟩
     · obtain ⟨w, q1, q2⟩ := hpl _ _ e6 hw2
@@ -296,4 +316,102 @@ theorem runR_act (c : Cfg) (a : ANode) (acts : List Act) : runR c a (acts.map .a
   | nil => rfl
   | cons x acts ih => exact ih (stepA c a x)
 
+/-! ### the DA-included height is durable -/
+
+/-- the DA-included height is at least `initialHeight − 1`, and the persisted value is the one in memory — or nothing is
+persisted yet and the node holds `initialHeight − 1` (where every start puts it) -/
+def PDI (c : Cfg) (a : ANode) : Prop :=
+  c.initialHeight - 1 ≤ a.daInc ∧
+  (a.n.store.getMeta daIncKey = some (le64 a.daInc) ∨
+   (a.n.store.getMeta daIncKey = none ∧ a.daInc = c.initialHeight - 1))
+
+theorem PDI_fresh (c : Cfg) : PDI c (freshA c) := by
+  obtain ⟨_, _, hkv, _⟩ := freshDisk_facts c
+  exact ⟨Nat.le_refl _, Or.inr ⟨hkv _ (by decide) (by decide), rfl⟩⟩
+
+theorem PDI.step {c : Cfg} {a : ANode} (r : R c a) (p : PDI c a) (act : Act) : PDI c (stepA c a act) := by
+  cases act with
+  | produce rs e =>
+    have hm := publish_getMeta r.live rs e daIncKey (by decide)
+    refine ⟨p.1, ?_⟩
+    show (publish c a.n rs e).1.store.getMeta daIncKey = some (le64 a.daInc) ∨
+      ((publish c a.n rs e).1.store.getMeta daIncKey = none ∧ a.daInc = c.initialHeight - 1)
+    rw [hm]; exact p.2
+  | subH s =>
+    obtain ⟨_, hi, _⟩ := headersIter_iter a s
+    have hm := hi.getMeta_other daIncKey (by decide)
+    have hd : (headersIter a s).1.daInc = a.daInc := hi.frame.daInc
+    refine ⟨by show _ ≤ (headersIter a s).1.daInc; rw [hd]; exact p.1, ?_⟩
+    show (headersIter a s).1.n.store.getMeta daIncKey = some (le64 (headersIter a s).1.daInc) ∨
+      ((headersIter a s).1.n.store.getMeta daIncKey = none ∧ (headersIter a s).1.daInc = c.initialHeight - 1)
+    rw [hm, hd]; exact p.2
+  | subD s =>
+    obtain ⟨_, hi, _⟩ := dataIter_iter a s
+    have hm := hi.getMeta_other daIncKey (by decide)
+    have hd : (dataIter a s).1.daInc = a.daInc := hi.frame.daInc
+    refine ⟨by show _ ≤ (dataIter a s).1.daInc; rw [hd]; exact p.1, ?_⟩
+    show (dataIter a s).1.n.store.getMeta daIncKey = some (le64 (dataIter a s).1.daInc) ∨
+      ((dataIter a s).1.n.store.getMeta daIncKey = none ∧ (dataIter a s).1.daInc = c.initialHeight - 1)
+    rw [hm, hd]; exact p.2
+  | incl =>
+    have hi : PassInv a (includerIter a).1 (includerIter a).2 :=
+      includerPass_inv (a.n.store.height + 1) a a [] (PassInv.init a)
+    have hmono := hi.mono
+    refine ⟨Nat.le_trans p.1 hmono, ?_⟩
+    show (includerIter a).1.n.store.getMeta daIncKey = some (le64 (includerIter a).1.daInc) ∨
+      ((includerIter a).1.n.store.getMeta daIncKey = none ∧ (includerIter a).1.daInc = c.initialHeight - 1)
+    by_cases hadv : a.daInc < (includerIter a).1.daInc
+    · exact Or.inl (hi.persisted hadv).1
+    · have heq : (includerIter a).1.daInc = a.daInc := by omega
+      obtain ⟨rec, _, hws⟩ := hi.writes
+      have hnil : (includerIter a).2 = [] := by rw [hws, heq]; simp
+      have hst : (includerIter a).1.n.store = a.n.store := by rw [hi.store, hnil]; rfl
+      rw [hst, heq]; exact p.2
+
+theorem PDI.run {c : Cfg} {a : ANode} (r : R c a) (p : PDI c a) (acts : List Act) : PDI c (runA c a acts) := by
+  induction acts generalizing a with
+  | nil => exact p
+  | cons act acts ih => exact ih (r.step act) (p.step r act)
+
+/-- what a start reads as the DA-included height -/
+def loadInc (c : Cfg) (s : Store) : Nat :=
+  let di0 := match s.getMeta daIncKey with
+    | some b => if b.length = 8 then Bytes.unLe b else 0
+    | none => 0
+  if c.initialHeight > 1 ∧ di0 < c.initialHeight - 1 then c.initialHeight - 1 else di0
+
+theorem loadInc_some {c : Cfg} {s : Store} {v : Nat} (h : s.getMeta daIncKey = some (le64 v)) (hb : v < 2 ^ 64)
+    (hl : c.initialHeight - 1 ≤ v) : loadInc c s = v := by
+  unfold loadInc
+  rw [h]
+  simp only [le64_length, ↓reduceIte, unLe_le64 hb]
+  rw [if_neg (by omega)]
+
+theorem loadInc_none {c : Cfg} {s : Store} (h : s.getMeta daIncKey = none) : loadInc c s = c.initialHeight - 1 := by
+  unfold loadInc
+  rw [h]
+  simp only
+  split <;> omega
+
+/-- **a restart gives the DA-included height back**: the persisted one, or `initialHeight − 1` when nothing is persisted —
+which is what the node held -/
+theorem PDI.restart {c : Cfg} {a a' : ANode} {clean : Bool} (p : PDI c a) (hr : Submit.restart c a a.n.store clean = some a')
+    (hb : a.daInc < 2 ^ 64) : a'.daInc = a.daInc ∧ PDI c a' := by
+  unfold Submit.restart at hr
+  split at hr
+  · simp at hr
+  · rename_i n ws hst
+    obtain ⟨_, _, _, _, _, _, _, _, e7, _⟩ := start_facts hst
+    have hm : n.store.getMeta daIncKey = a.n.store.getMeta daIncKey := e7 _ (by decide) (by decide)
+    simp only [Option.some.injEq] at hr
+    subst hr
+    have hval : loadInc c n.store = a.daInc := by
+      rcases p.2 with h | ⟨h, h'⟩
+      · exact loadInc_some (by rw [hm]; exact h) hb p.1
+      · rw [loadInc_none (by rw [hm]; exact h), h']
+    refine ⟨hval, ?_, ?_⟩
+    · show _ ≤ loadInc c n.store; rw [hval]; exact p.1
+    · show n.store.getMeta daIncKey = some (le64 (loadInc c n.store)) ∨
+        (n.store.getMeta daIncKey = none ∧ loadInc c n.store = c.initialHeight - 1)
+      rw [hval, hm]; exact p.2
 end Submit
